@@ -589,6 +589,22 @@ def _fuzzfrozen(g, scale, opts=None):
             hdr = struct.pack("<I", cookie | (n << 15))
             for body in [b"", bytes(5 * min(n, 3)), bytes(range(1, 1 + 5 * min(n, 2)))]:
                 g.emit(("fdec %s %s %s" % (g.fresh("h"), hexs(body + hdr), opt())).strip())
+    # a well-formed header announcing n chunks at the end of a buffer of EVERY total length from 4 up to a little more than
+    # header + table (the front of the image is missing: wrong start offset into a file), zero and non-zero filling
+    for n in (1, 2, 3, 7):
+        hdr = struct.pack("<I", 13766 | (n << 15))
+        for total in range(4, 5 * n + 10):
+            for fill in (0, 1):
+                body = bytes((fill * (3 + i)) & 0xFF for i in range(total - 4))
+                g.emit(("fdec %s %s %s" % (g.fresh("h"), hexs(body + hdr), opt())).strip())
+        g.count("fzmut:short-front")
+    # the same with the tail of a VALID image (keys, counts, type codes intact; payload and part of the table missing)
+    for conts in ([(0, "A", [(7, 7)])], [(3, "A", [(1, 1), (9, 9)]), (5, "R", [(10, 99)])], [(k, "A", [(k, k)]) for k in range(1, 6)]):
+        d = enc_frozen(conts)
+        n = len(conts)
+        for keep in range(4, min(len(d), 5 * n + 9) + 1):
+            g.emit(("fdec %s %s %s" % (g.fresh("h"), hexs(d[len(d) - keep:]), opt())).strip())
+        g.count("fzmut:valid-tail")
     g.emit("fdec %s - nil" % g.fresh("h"))
     # structural corruptions
     for it in range(int(110 * scale)):
